@@ -15,6 +15,7 @@ import Driver.OpsCopy
 import Driver.OpsNil
 import Driver.OpsRegistry
 import Driver.OpsLayout
+import Driver.OpsTyper
 open Lean Driver
 
 def dispatch (op : String) (j : Json) : R Json :=
@@ -35,6 +36,7 @@ def dispatch (op : String) (j : Json) : R Json :=
   | "typeOf" => opTypeOf j
   | "layout" => opLayout j
   | "cast" => opCast j
+  | "typer" => opTyper j
   | _ => .error s!"unknown op {op}"
 
 partial def loop (h : IO.FS.Stream) (out : IO.FS.Stream) : IO Unit := do
